@@ -1354,12 +1354,14 @@ package fsutil
 //@   at call os.Lstat: no_follow: arg0 == path
 //@   at call mkstat: named_by_base: arg0 == path && arg1 == filepath.Base(path) && arg3 == nil
 // the top-level name selects the mounted view, the rest of the path is opened in it
-// (note: a path with no second component indexes past the split - Open("name") panics; outside
-// the listed properties: the entries under a top-level name are what a transfer opens)
+// (a path with no second component indexes past the split - Open("name") of a bare mount name
+// panics: stated as a precondition, with index safety checked under it; not a listed property:
+// what a transfer opens are regular files, which lie below a mount)
 //@ func subDirFS.Open
 //@   property C11
-//@   safety -index
 //@   requires fs != nil
+//@   requires names_an_entry_below_a_mount: specHasRest(filepath.Clean(p))
 //@   modifies array string
 //@   effects FsOpen FsOpenRes
 //@   at call FS.Open: rest_in_the_named_mount: haskey(fs.m, parts[0]) && arg0 == parts[1]
+//@   ensures mount_named_by_the_exact_first_component: cnt(FsOpen) > old(cnt(FsOpen)) ==> haskey(fs.m, specFirstComponent(filepath.Clean(p))) && arg(FsOpen, 0) == specRestComponents(filepath.Clean(p))
